@@ -318,13 +318,14 @@ func (c *Ctx) EffectsOf(fn *ssa.Function) *FlagEffects {
 	if fn == nil || fn.Blocks == nil || len(fn.Params) < 4 {
 		return fe
 	}
-	c.collectEffects(fn, fn.Params[0], fn.Params[2], fn.Params[3], fe, 0, map[*ssa.Function]bool{})
+	c.collectEffects(fn, fn.Params[0], fn.Params[2], fn.Params[3], fe, 0, map[*ssa.Function]bool{}, nil)
 	sort.Slice(fe.Stores, func(i, j int) bool { return fe.Stores[i].Path < fe.Stores[j].Path })
 	sort.Strings(fe.Calls)
 	return fe
 }
 
-func (c *Ctx) collectEffects(fn *ssa.Function, args, pargi, options ssa.Value, fe *FlagEffects, depth int, seen map[*ssa.Function]bool) {
+// bind maps the callee's parameters to the constant (or argument-derived) values its caller passes.
+func (c *Ctx) collectEffects(fn *ssa.Function, args, pargi, options ssa.Value, fe *FlagEffects, depth int, seen map[*ssa.Function]bool, bind map[ssa.Value]string) {
 	if fn == nil || fn.Blocks == nil || depth > 3 || seen[fn] {
 		return
 	}
@@ -352,6 +353,8 @@ func (c *Ctx) collectEffects(fn *ssa.Function, args, pargi, options ssa.Value, f
 					val := "?"
 					if s, ok := constRender(x.Val); ok {
 						val = s
+					} else if b, ok := bind[x.Val]; ok {
+						val = b
 					} else if args != nil && derivesFromArgs(x.Val, args, 0) {
 						val = "arg"
 					}
@@ -405,7 +408,7 @@ func (c *Ctx) collectEffects(fn *ssa.Function, args, pargi, options ssa.Value, f
 						for i, a := range x.Call.Args {
 							if path, ok := optionsPath(a, options); ok && path != "" && i < len(callee.Params) {
 								sub := &FlagEffects{}
-								c.collectEffects(callee, a2, nil, callee.Params[i], sub, depth+1, seen)
+								c.collectEffects(callee, a2, nil, callee.Params[i], sub, depth+1, seen, c.bindArgs(callee, x.Call.Args, args, bind))
 								for _, s := range sub.Stores {
 									s.Path = path + "." + s.Path
 									fe.Stores = append(fe.Stores, s)
@@ -415,11 +418,29 @@ func (c *Ctx) collectEffects(fn *ssa.Function, args, pargi, options ssa.Value, f
 					}
 				}
 				if passes {
-					c.collectEffects(callee, a2, p2, o2, fe, depth+1, seen)
+					c.collectEffects(callee, a2, p2, o2, fe, depth+1, seen, c.bindArgs(callee, x.Call.Args, args, bind))
 				} else if callee != nil && IsModuleFunc(callee) {
 					fe.Calls = append(fe.Calls, name)
 				}
 			}
 		}
 	}
+}
+
+// bindArgs: constant (or argument-derived) actuals of a helper call, keyed by the callee's parameters.
+func (c *Ctx) bindArgs(callee *ssa.Function, actuals []ssa.Value, args ssa.Value, outer map[ssa.Value]string) map[ssa.Value]string {
+	out := map[ssa.Value]string{}
+	for i, a := range actuals {
+		if i >= len(callee.Params) {
+			break
+		}
+		if s, ok := constRender(a); ok {
+			out[callee.Params[i]] = s
+		} else if b, ok := outer[a]; ok {
+			out[callee.Params[i]] = b
+		} else if args != nil && derivesFromArgs(a, args, 0) {
+			out[callee.Params[i]] = "arg"
+		}
+	}
+	return out
 }
